@@ -269,8 +269,10 @@ fn poly(n: usize, x0: f64, y0: f64) -> Vec<Pt> {
 
 pub const BIG: &[(&str, usize)] = &[
     ("numpoints", 65535), ("numpoints", 65536), ("comptotal", 30000), ("comptotal", 32768), ("comptotal", 40000),
-    ("numcontours", 32766), ("numcontours", 32767), ("numpoints", 65537), ("glyphcount", 65535), ("glyphcount", 65536),
+    ("numcontours", 32766), ("numcontours", 32767), ("numpoints", 65537), ("numcomponents", 21845), ("numcomponents", 21846),
     ("numcomponents", 65535), ("numcomponents", 65536),
+    // ~10 minutes each in a debug build: not part of any tier, run by hand (`vharness c19big --from 12 --n 2`)
+    ("glyphcount", 65535), ("glyphcount", 65536),
 ];
 
 pub fn gen_big(_rng: &mut Rng, i: usize) -> Case {
@@ -425,6 +427,33 @@ pub fn dump_gpos_flat(font: &FontRef) -> Vec<S> {
     vec![S::k1("kernpairs", S::list(pairs)), S::k1("anchors", S::list(anchors)), S::k1("gdefivs", S::opt(ivs))]
 }
 
+/// counts only (heavy cases): maxp, number of post names, and the shape of the first four glyphs
+fn font_summary(bytes: &[u8]) -> S {
+    let Ok(font) = FontRef::new(bytes) else { return S::kv("fontsum", [S::k1("unreadable", S::atom("font"))]) };
+    let mut f = vec![];
+    if let Ok(m) = font.maxp() {
+        f.push(S::k1("maxp", S::list([
+            S::usize(m.num_glyphs() as usize), S::usize(m.max_points().unwrap_or(0) as usize), S::usize(m.max_contours().unwrap_or(0) as usize),
+            S::usize(m.max_composite_points().unwrap_or(0) as usize), S::usize(m.max_composite_contours().unwrap_or(0) as usize),
+            S::usize(m.max_component_elements().unwrap_or(0) as usize), S::usize(m.max_component_depth().unwrap_or(0) as usize),
+        ])));
+    }
+    if let Ok(h) = font.hhea() { f.push(S::k1("numhmetrics", S::usize(h.number_of_h_metrics() as usize))); }
+    let mut shapes = vec![];
+    if let (Ok(loca), Ok(glyf)) = (font.loca(None), font.glyf()) {
+        for gid in 0..4u32 {
+            shapes.push(match loca.get_glyf(GlyphId::new(gid), &glyf) {
+                Ok(Some(Glyph::Simple(s))) => S::list([S::atom("simple"), S::usize(s.num_points()), S::usize(s.end_pts_of_contours().len())]),
+                Ok(Some(Glyph::Composite(c))) => S::list([S::atom("composite"), S::usize(c.components().count())]),
+                Ok(None) => S::list([S::atom("empty")]),
+                Err(_) => S::list([S::atom("unreadable")]),
+            });
+        }
+    }
+    f.push(S::k1("shapes", S::list(shapes)));
+    S::kv("fontsum", f)
+}
+
 fn hash_hex(s: &str) -> String {
     let mut h = std::collections::hash_map::DefaultHasher::new();
     s.hash(&mut h);
@@ -438,6 +467,11 @@ pub fn observe(c: &Case, tag: &str) -> (Vec<S>, S) {
     let ds = write::write_design(tmp.path(), &c.design);
     // a design without axes is compiled from its single UFO
     let src = if c.design.axes.is_empty() { tmp.path().join(write::ufo_name(&c.design, 0)) } else { ds };
+    if let Ok(keep) = std::env::var("VERIF_KEEP") {
+        // keep the generated sources (for replaying a case against a patched compiler)
+        let name = format!("{}-{}-{}", c.field, c.sub, c.vals.iter().map(|v| format!("{v}")).collect::<Vec<_>>().join("_"));
+        let _ = std::process::Command::new("cp").arg("-r").arg(tmp.path()).arg(std::path::Path::new(&keep).join(name)).status();
+    }
     let res = build::compile(&src, &build::BuildOpts::default());
     let mut f = vec![];
     match res {
@@ -450,7 +484,12 @@ pub fn observe(c: &Case, tag: &str) -> (Vec<S>, S) {
             }
             let text: String = dumped.iter().map(|s| s.to_line()).collect();
             let obs = S::list([S::atom("obs"), S::atom("ok"), S::atom(hash_hex(&text))]);
-            f.extend(dumped);
+            if c.big {
+                // megabyte-sized dumps are only hashed; the line carries counts
+                f.push(font_summary(&bytes));
+            } else {
+                f.extend(dumped);
+            }
             (f, obs)
         }
         Err(e) => {
@@ -496,10 +535,12 @@ fn big_summary(c: &Case) -> S {
     let m = &c.design.masters[0];
     S::kv("bigdesign", [
         S::k1("nglyphs", S::usize(m.glyphs.len())),
+        // (name advance contours points components-of-"a")
         S::k1("glyphs", S::list(m.glyphs.iter().filter(|(n, _)| n.as_str() == "a" || n.as_str() == "b").map(|(n, g)| S::list([
             S::str(n), S::f64(g.advance),
-            S::list(g.contours.iter().map(|c| S::usize(c.len()))),
-            S::list(g.components.iter().map(|c| S::str(&c.base))),
+            S::usize(g.contours.len()),
+            S::usize(g.contours.iter().map(|c| c.len()).sum()),
+            S::usize(g.components.len()),
         ])))),
     ])
 }
